@@ -136,6 +136,10 @@ pub struct Life {
     pub null_at: Vec<usize>,
     pub client_ip: Option<HexStr>,
     pub proxy: Option<HexStr>,
+    /// calls the proxy does not make for this response (a HEAD response has no body filter, a module may not ask for
+    /// the status code): states S_STATUS0, S_STATUS, S_HEADERS, S_BODY_CREATE (with the whole body), S_LOG
+    #[serde(default)]
+    pub skip: Vec<usize>,
 }
 
 #[derive(Clone, Debug, Serialize, Deserialize)]
@@ -325,6 +329,7 @@ impl World for W4 {
                 null_at,
                 client_ip: gen_bytes(rng, &["10.1.2.3", "::1", "bad"], hostile),
                 proxy: gen_bytes(rng, &["nginx", "apache"], hostile),
+                skip: [S_STATUS0, S_STATUS, S_HEADERS, S_BODY_CREATE, S_LOG].iter().filter(|_| rng.chance(1, 5)).cloned().collect(),
             });
         }
         let total: usize = lives.iter().map(|l| 14 + l.cuts.len() + 1).sum();
@@ -502,6 +507,8 @@ struct LifeState {
     action: *mut Action,
     filter: *mut FilterBodyAction,
     native_filter: Option<FilterBodyAction>,
+    /// the native twin of the action behind the C handle: restored from the same JSON, driven through the same calls
+    twin: Option<Action>,
     chunk: usize,
     action_json: Option<String>,
     steps_done: usize,
@@ -652,6 +659,13 @@ fn pass(case: &W4Case, stats: &mut Vec<&'static str>, record_stats: bool) -> Opt
                 }
             }
         }
+        // calls this proxy does not make
+        while l.skip.contains(&s.pc) && s.pc < S_DROP {
+            s.pc = if s.pc == S_BODY_CREATE { S_LOG } else { s.pc + 1 };
+            if record_stats {
+                stats.push("calls_skipped_by_the_proxy");
+            }
+        }
         let inject_null = l.null_at.contains(&s.steps_done);
         if inject_null && record_stats {
             stats.push("fault_null_handle");
@@ -791,6 +805,8 @@ fn pass(case: &W4Case, stats: &mut Vec<&'static str>, record_stats: bool) -> Opt
                         s.action = window(tag, || unsafe { redirectionio_action_json_deserialize(c.as_ptr() as *mut c_char) }) as *mut Action;
                         if s.action.is_null() {
                             pr.add("native-equality", format!("action_json_deserialize returned NULL for {text}"));
+                        } else {
+                            s.twin = window(tag, || serde_json::from_str::<Action>(text).ok());
                         }
                     }
                     _ => {
@@ -809,9 +825,9 @@ fn pass(case: &W4Case, stats: &mut Vec<&'static str>, record_stats: bool) -> Opt
                 let exp = if a.is_null() {
                     0
                 } else {
-                    window(tag, || {
-                        let mut twin = unsafe { (*a).clone() };
-                        twin.get_status_code(code, None)
+                    window(tag, || match s.twin.as_mut() {
+                        Some(twin) => twin.get_status_code(code, None),
+                        None => unsafe { (*a).clone() }.get_status_code(code, None),
                     })
                 };
                 let got = window(tag, || unsafe { redirectionio_action_get_status_code(a, code) });
@@ -828,7 +844,14 @@ fn pass(case: &W4Case, stats: &mut Vec<&'static str>, record_stats: bool) -> Opt
                     None
                 } else {
                     Some(window(tag, || {
-                        let mut twin = unsafe { (*a).clone() };
+                        let mut clone;
+                        let twin = match s.twin.as_mut() {
+                            Some(t) => t,
+                            None => {
+                                clone = unsafe { (*a).clone() };
+                                &mut clone
+                            }
+                        };
                         twin.filter_headers(CList::native(&l.resp_headers), l.code, l.add_ids, None)
                             .into_iter()
                             .map(|h| (h.name, h.value))
@@ -880,9 +903,9 @@ fn pass(case: &W4Case, stats: &mut Vec<&'static str>, record_stats: bool) -> Opt
                 let a = if inject_null { std::ptr::null_mut() } else { s.action };
                 let list = CList::new(&l.resp_headers);
                 if !a.is_null() {
-                    s.native_filter = window(tag, || {
-                        let mut twin = unsafe { (*a).clone() };
-                        twin.create_filter_body(l.code, &CList::native(&l.resp_headers))
+                    s.native_filter = window(tag, || match s.twin.as_mut() {
+                        Some(twin) => twin.create_filter_body(l.code, &CList::native(&l.resp_headers)),
+                        None => unsafe { (*a).clone() }.create_filter_body(l.code, &CList::native(&l.resp_headers)),
                     });
                 }
                 s.filter = window(tag, || unsafe { redirectionio_action_body_filter_create(a, l.code, list.head()) }) as *mut FilterBodyAction;
@@ -964,9 +987,9 @@ fn pass(case: &W4Case, stats: &mut Vec<&'static str>, record_stats: bool) -> Opt
                 let exp = if a.is_null() {
                     l.allow_log
                 } else {
-                    window(tag, || {
-                        let mut twin = unsafe { (*a).clone() };
-                        twin.should_log_request(l.allow_log, l.code, None)
+                    window(tag, || match s.twin.as_mut() {
+                        Some(twin) => twin.should_log_request(l.allow_log, l.code, None),
+                        None => unsafe { (*a).clone() }.should_log_request(l.allow_log, l.code, None),
                     })
                 };
                 let got = window(tag, || unsafe { redirectionio_action_should_log_request(a, l.allow_log, l.code) });
@@ -991,7 +1014,8 @@ fn pass(case: &W4Case, stats: &mut Vec<&'static str>, record_stats: bool) -> Opt
                     let exp = window(tag, || {
                         let proxy = l.proxy.as_ref().and_then(|h| std::str::from_utf8(&h.bytes).ok()).unwrap_or("");
                         let ip = l.client_ip.as_ref().and_then(|h| std::str::from_utf8(&h.bytes).ok()).unwrap_or("");
-                        let action = if s.action.is_null() { None } else { Some(unsafe { &*s.action }) };
+                        // the state the calls so far left in the action (applied rule ids) is the native twin's
+                        let action = if s.action.is_null() { None } else { Some(s.twin.as_ref().unwrap_or(unsafe { &*s.action })) };
                         let log = Log::from_proxy(unsafe { &*r }, l.code, &CList::native(&l.resp_headers), action, proxy, time as u128, ip);
                         serde_json::to_string(&log).ok()
                     });
@@ -1014,7 +1038,7 @@ fn pass(case: &W4Case, stats: &mut Vec<&'static str>, record_stats: bool) -> Opt
                         pr.add("null-contract", "action_json_serialize(NULL) returned a string".to_string());
                     }
                 } else {
-                    let exp = window(tag, || serde_json::to_string(unsafe { &*a }).ok());
+                    let exp = window(tag, || serde_json::to_string(s.twin.as_ref().unwrap_or(unsafe { &*a })).ok());
                     let got = read_c_string(p).map(|g| String::from_utf8_lossy(&g).to_string());
                     if got != exp {
                         pr.add("native-equality", format!("action_json_serialize: {got:?} native {exp:?}"));
